@@ -54,9 +54,39 @@ macro_rules! family {
 
             fn spanned_some<'s, T>(c: Lexer<'s, T>, k: usize) -> Vec<(String, Range<usize>)>
             where
-                T: Logos<'s, Source = $Src, Extras = Ex> + Debug,
+                T: Logos<'s, Source = $Src, Extras = Ex> + Debug + Clone,
             {
-                c.spanned().take(k).map(|(r, sp)| (format!("{:?}", r), sp)).collect()
+                // through Deref / DerefMut and a clone of the iterator taken half way
+                let src = c.source();
+                let mut it = c.spanned();
+                let mut out = vec![];
+                for i in 0..k {
+                    if i == k / 2 {
+                        let mut twin = it.clone();
+                        let a = twin.next().map(|(r, sp)| (format!("{:?}", r), sp));
+                        let mut twin2 = it.clone();
+                        let b = twin2.next().map(|(r, sp)| (format!("{:?}", r), sp));
+                        if a != b {
+                            out.push(("CLONED-SPANNED-ITERATORS-DISAGREE".to_string(), 0..0));
+                        }
+                    }
+                    match it.next() {
+                        Some((r, sp)) => {
+                            // Deref: accessors of the inner lexer
+                            if it.span() != sp || !std::ptr::eq(it.source(), src) {
+                                out.push(("SPANNED-DEREF-DISAGREES".to_string(), sp.clone()));
+                            }
+                            // DerefMut: a zero bump must not change anything
+                            it.bump(0);
+                            if it.span() != sp {
+                                out.push(("SPANNED-DEREFMUT-BUMP0-MOVED".to_string(), sp.clone()));
+                            }
+                            out.push((format!("{:?}", r), sp));
+                        }
+                        None => break,
+                    }
+                }
+                out
             }
 
             macro_rules! with {
@@ -79,10 +109,12 @@ macro_rules! family {
                     let len = bytes.len();
                     let partial = rng.below(4) == 0;
                     let ex0 = Ex { n: rng.below(5) as u32, tag: Box::new(40 + rng.below(5) as u32) };
+                    // constructors: Lexer::{with_extras, partial_with_extras} and the trait's lexer_with_extras
+                    let via_trait = rng.below(3) == 0;
                     let mut cur: Cur = if rng.below(2) == 0 {
-                        Cur::A(if partial { Lexer::partial_with_extras(src, ex0.clone()) } else { Lexer::with_extras(src, ex0.clone()) })
+                        Cur::A(if partial { Lexer::partial_with_extras(src, ex0.clone()) } else if via_trait { <$AE as Logos>::lexer_with_extras(src, ex0.clone()) } else { Lexer::with_extras(src, ex0.clone()) })
                     } else {
-                        Cur::B(if partial { Lexer::partial_with_extras(src, ex0.clone()) } else { Lexer::with_extras(src, ex0.clone()) })
+                        Cur::B(if partial { Lexer::partial_with_extras(src, ex0.clone()) } else if via_trait { <$B as Logos>::lexer_with_extras(src, ex0.clone()) } else { Lexer::with_extras(src, ex0.clone()) })
                     };
                     let (mut start, mut end) = (0usize, 0usize);
                     let mut ex = ex0;
